@@ -26,6 +26,9 @@ def DataFrameColumn_new (truth : Term → Bool) (nrow_is_None : Bool) (nrow : In
 /-- the decorators of dataiter/data_frame.py: DataFrameColumn.__new__, outermost first -/
 def DataFrameColumn_new_decorators : List String := []
 
+/-- the signature of dataiter/data_frame.py: DataFrameColumn.__new__: parameters in order, with the source text of their defaults -/
+def DataFrameColumn_new_signature : List String := ["cls", "object", "dtype=None", "nrow=None"]
+
 /-- dataiter/data_frame.py: DataFrame._reconcile_column (sha256 of the function source: 8374da515148df48) -/
 def DataFrame_reconcile_column (truth : Term → Bool) (column_nrow : Int) (self_nrow : Int) : Out :=
   if truth (Term.app "isinstance" [(Term.sym "column"), (Term.sym "DataFrameColumn")]) then
@@ -41,6 +44,9 @@ def DataFrame_reconcile_column (truth : Term → Bool) (column_nrow : Int) (self
 /-- the decorators of dataiter/data_frame.py: DataFrame._reconcile_column, outermost first -/
 def DataFrame_reconcile_column_decorators : List String := []
 
+/-- the signature of dataiter/data_frame.py: DataFrame._reconcile_column: parameters in order, with the source text of their defaults -/
+def DataFrame_reconcile_column_signature : List String := ["self", "column"]
+
 /-- dataiter/data_frame.py: DataFrame._check_dimensions (sha256 of the function source: df97a94de787c0a0) -/
 def DataFrame_check_dimensions (truth : Term → Bool) (len_set_nrows : Int) : Out :=
   if (!truth (Term.sym "self")) then
@@ -55,6 +61,9 @@ def DataFrame_check_dimensions (truth : Term → Bool) (len_set_nrows : Int) : O
 /-- the decorators of dataiter/data_frame.py: DataFrame._check_dimensions, outermost first -/
 def DataFrame_check_dimensions_decorators : List String := []
 
+/-- the signature of dataiter/data_frame.py: DataFrame._check_dimensions: parameters in order, with the source text of their defaults -/
+def DataFrame_check_dimensions_signature : List String := ["self"]
+
 /-- dataiter/data_frame.py: DataFrame.__setitem__ (sha256 of the function source: 9efe7aa994c46e8b) -/
 def DataFrame_setitem (truth : Term → Bool) : Out :=
   let value' : Term := (Term.app "._reconcile_column" [(Term.sym "self"), (Term.sym "value")]);
@@ -67,6 +76,9 @@ def DataFrame_setitem (truth : Term → Bool) : Out :=
 /-- the decorators of dataiter/data_frame.py: DataFrame.__setitem__, outermost first -/
 def DataFrame_setitem_decorators : List String := []
 
+/-- the signature of dataiter/data_frame.py: DataFrame.__setitem__: parameters in order, with the source text of their defaults -/
+def DataFrame_setitem_signature : List String := ["self", "key", "value"]
+
 /-- dataiter/vector.py: Vector._check_dimensions (sha256 of the function source: edef83c32490bd45) -/
 def Vector_check_dimensions (truth : Term → Bool) (self_ndim : Int) : Out :=
   if decide (self_ndim = (1 : Int)) then
@@ -77,12 +89,18 @@ def Vector_check_dimensions (truth : Term → Bool) (self_ndim : Int) : Out :=
 /-- the decorators of dataiter/vector.py: Vector._check_dimensions, outermost first -/
 def Vector_check_dimensions_decorators : List String := []
 
+/-- the signature of dataiter/vector.py: Vector._check_dimensions: parameters in order, with the source text of their defaults -/
+def Vector_check_dimensions_signature : List String := ["self"]
+
 /-- dataiter/util.py: length (sha256 of the function source: f2c4ff085c8cc78a) -/
 def util_length (truth : Term → Bool) (len_value : Int) : Out :=
   Out.ret [] (Term.int (if truth (Term.app "is_scalar" [(Term.sym "value")]) then (1 : Int) else len_value))
 
 /-- the decorators of dataiter/util.py: length, outermost first -/
 def util_length_decorators : List String := []
+
+/-- the signature of dataiter/util.py: length: parameters in order, with the source text of their defaults -/
+def util_length_signature : List String := ["value"]
 
 /-- dataiter/vector.py: Vector.length (sha256 of the function source: f9a8d1600615e72a) -/
 def Vector_length (truth : Term → Bool) : Out :=
@@ -91,6 +109,9 @@ def Vector_length (truth : Term → Bool) : Out :=
 
 /-- the decorators of dataiter/vector.py: Vector.length, outermost first -/
 def Vector_length_decorators : List String := ["property"]
+
+/-- the signature of dataiter/vector.py: Vector.length: parameters in order, with the source text of their defaults -/
+def Vector_length_signature : List String := ["self"]
 
 /-- dataiter/data_frame.py: DataFrame.nrow (sha256 of the function source: be27b9810d333211) -/
 def DataFrame_nrow (truth : Term → Bool) : Out :=
@@ -102,6 +123,9 @@ def DataFrame_nrow (truth : Term → Bool) : Out :=
 
 /-- the decorators of dataiter/data_frame.py: DataFrame.nrow, outermost first -/
 def DataFrame_nrow_decorators : List String := ["property"]
+
+/-- the signature of dataiter/data_frame.py: DataFrame.nrow: parameters in order, with the source text of their defaults -/
+def DataFrame_nrow_signature : List String := ["self"]
 
 /-- dataiter/data_frame.py: DataFrame.__delitem__ (sha256 of the function source: 4e1dbfa272dd4be5) -/
 def DataFrame_delitem (truth : Term → Bool) : Out :=
@@ -118,6 +142,9 @@ def DataFrame_delitem (truth : Term → Bool) : Out :=
 /-- the decorators of dataiter/data_frame.py: DataFrame.__delitem__, outermost first -/
 def DataFrame_delitem_decorators : List String := []
 
+/-- the signature of dataiter/data_frame.py: DataFrame.__delitem__: parameters in order, with the source text of their defaults -/
+def DataFrame_delitem_signature : List String := ["self", "key"]
+
 /-- dataiter/data_frame.py: DataFrame.pop (sha256 of the function source: 1e9bd023a4d66dbe) -/
 def DataFrame_pop (truth : Term → Bool) : Out :=
   let value' : Term := (Term.app "super().pop" [(Term.sym "key"), (Term.app "*" [(Term.sym "args")]), (Term.app "=**" [(Term.sym "kwargs")])]);
@@ -133,6 +160,9 @@ def DataFrame_pop (truth : Term → Bool) : Out :=
 /-- the decorators of dataiter/data_frame.py: DataFrame.pop, outermost first -/
 def DataFrame_pop_decorators : List String := []
 
+/-- the signature of dataiter/data_frame.py: DataFrame.pop: parameters in order, with the source text of their defaults -/
+def DataFrame_pop_signature : List String := ["self", "key", "*args", "**kwargs"]
+
 /-- dataiter/data_frame.py: DataFrame.__delattr__ (sha256 of the function source: d451320c51b8280e) -/
 def DataFrame_delattr (truth : Term → Bool) : Out :=
   if truth (Term.app "In" [(Term.sym "name"), (Term.sym "self")]) then
@@ -143,6 +173,9 @@ def DataFrame_delattr (truth : Term → Bool) : Out :=
 /-- the decorators of dataiter/data_frame.py: DataFrame.__delattr__, outermost first -/
 def DataFrame_delattr_decorators : List String := []
 
+/-- the signature of dataiter/data_frame.py: DataFrame.__delattr__: parameters in order, with the source text of their defaults -/
+def DataFrame_delattr_signature : List String := ["self", "name"]
+
 /-- dataiter/data_frame.py: DataFrame.__getattr__ (sha256 of the function source: 018a5f2266811708) -/
 def DataFrame_getattr (truth : Term → Bool) : Out :=
   if truth (Term.app "In" [(Term.sym "name"), (Term.sym "self")]) then
@@ -152,6 +185,9 @@ def DataFrame_getattr (truth : Term → Bool) : Out :=
 
 /-- the decorators of dataiter/data_frame.py: DataFrame.__getattr__, outermost first -/
 def DataFrame_getattr_decorators : List String := []
+
+/-- the signature of dataiter/data_frame.py: DataFrame.__getattr__: parameters in order, with the source text of their defaults -/
+def DataFrame_getattr_signature : List String := ["self", "name"]
 
 /-- dataiter/data_frame.py: DataFrame.__getattribute__ (sha256 of the function source: 3d4c793237b501e6) -/
 def DataFrame_getattribute (truth : Term → Bool) : Out :=
@@ -166,5 +202,8 @@ def DataFrame_getattribute (truth : Term → Bool) : Out :=
 
 /-- the decorators of dataiter/data_frame.py: DataFrame.__getattribute__, outermost first -/
 def DataFrame_getattribute_decorators : List String := []
+
+/-- the signature of dataiter/data_frame.py: DataFrame.__getattribute__: parameters in order, with the source text of their defaults -/
+def DataFrame_getattribute_signature : List String := ["self", "name"]
 
 end DI.Gen
